@@ -151,7 +151,7 @@ def _assigns(body) -> Dict[str, ast.expr]:
 def run(chk, repo: Repo):
     chk.rule("C06-R1", "flag==2 branch of M is the blockwise adjoint of the flag==1 branch (same scalars, transposed matrices, adjoint maps, matching slices)", floor=4)
     chk.rule("C06-R2", "right-hand side blocks are whitened with the same chain/scalar as the operator blocks; UGLA recomputes all quantities derived from the Laplace factor each step; legacy 5-tuple input wired (data, model, noise sqrtprec, prior mean, prior sqrtprec)", floor=4)
-    chk.rule("C06-R3", "y = b_tild + standard normal of len(b_tild); solver on (M, y, current state); new state = first solver result", floor=4)
+    chk.rule("C06-R3", "y = b_tild + standard normal of len(b_tild); solver on (M, y, current state); new state = first solver result; the solver keeps the iteration budget / tolerances it is given", floor=4)
     chk.rule("C06-R4", "sqrtprecTimesMean = sqrtprec @ mean of the same object", floor=3)
     chk.rule("C06-R5", "per-block operator closures do not capture the block variable late (closures built in a loop / comprehension over the "
                        "likelihood blocks must bind the block by value)", floor=8)
